@@ -14,7 +14,7 @@ ANCHORS = ["TrafficLightCycle.get_state_at_time_step", "TrafficLight.get_state_a
 REQUIRED = ["single-element", "t<offset", "t-many-periods", "adjacent-same-colour", "light-agrees", "retimed.swap-durations", "retimed.shift-duration",
             "retimed.reverse-in-place", "retimed.time_offset", "retimed.append", "light.lamps-RYG",
             "light.first-colour-only", "light.inactive-flag", "numpy-int-time.uint8", "numpy-int-time.uint64",
-            "numpy-int-time.int8"]
+            "numpy-int-time.int8", "numpy-int-definition.unsigned", "numpy-int-definition.signed"]
 EXHAUSTIVE = {"quick": "cycles of 1..3 elements, durations 1..3, colours {RED,GREEN,YELLOW}, offsets 0..4, t in -10..40",
               "thorough": "cycles of 1..3 elements, durations 1..4, all 5 colours, offsets 0..4, t in -10..40 "
                           "(random part beyond is not exhaustive)"}
@@ -49,14 +49,15 @@ def run(ctx):
 
     light_variant = [0]
 
-    def check_case(sd, off, tlist, tag):
-        ctx.fingerprint([[s.name for s, _ in sd], [d for _, d in sd], off])
+    def check_case(sd, off, tlist, tag, K=int):
+        """K: integer kind in which durations and offset are handed to the constructors (int or a numpy fixed-width kind)"""
+        ctx.fingerprint([[s.name for s, _ in sd], [d for _, d in sd], off] + ([K.__name__] if K is not int else []))
         if len(sd) == 1:
             ctx.feature("single-element")
         if any(sd[i][0] == sd[i + 1][0] for i in range(len(sd) - 1)):
             ctx.feature("adjacent-same-colour")
         total = sum(d for _, d in sd)
-        mk = lambda: TrafficLightCycle([TrafficLightCycleElement(s, d) for s, d in sd], time_offset=off)  # noqa
+        mk = lambda: TrafficLightCycle([TrafficLightCycleElement(s, K(d)) for s, d in sd], time_offset=K(off))  # noqa
         cyc = mk()
         # the light's own optional arguments (lamp colours, active flag, direction) do not enter the statement:
         # whatever they are, the light agrees with its cycle
@@ -141,7 +142,13 @@ def run(ctx):
             tl = [K(t) if info.min <= t <= info.max else t for t in tl]
             ctx.feature("numpy-int-time")
             ctx.feature("numpy-int-time." + K.__name__)
-        check_case(sd, off, tl, "random")
+        K = int
+        if i % 5 == 2 and all(d <= 100 for _, d in sd) and off <= 100:
+            # ... and cycles whose durations / offset are numpy integers (e.g. taken from an integer array)
+            K = [np.int64, np.uint8, np.int32, np.uint32, np.int8, np.uint64, np.int16, np.uint16][(i // 5) % 8]
+            ctx.feature("numpy-int-definition")
+            ctx.feature("numpy-int-definition." + ("unsigned" if K.__name__.startswith("u") else "signed"))
+        check_case(sd, off, tl, "random" if K is int else "numpy-int-definition", K)
         if i < 2:
             ctx.sample({"cycle": [(s.name, d) for s, d in sd], "offset": off, "t": [int(t) for t in tl[:12]]})
 
